@@ -297,6 +297,8 @@ def reachable_avoiding(fn, removed_edges, start=0, removed_blocks=()):
     cfg = fn.cfg
     removed = set(removed_edges)
     rb = set(removed_blocks)
+    if start in rb:
+        return set()
     seen = {start}
     st = [start]
     while st:
